@@ -740,8 +740,10 @@ def rand_dir(rng):
         elif w.get("ref") is None:
             w["ref"] = {"seg": []}
         utts.append(w)
-    if pad == "reflect":
-        pad = "constant"   # torch's reflect padding has its own length preconditions (C09)
+    if pad == "reflect" or (pad == "replicate" and any(len(u["feat"]) == 0 for u in utts)):
+        # reflect / replicate padding have their own length preconditions (property C09): reflect needs pad < T,
+        # replicate needs at least one frame (a 0-frame utterance whose token window reaches outside raises)
+        pad = "constant"
     return dict(kind="dir", policy=policy, wt=rng.choice(WTS), pad=pad, padc=rng.choice([0, 0, -7, 3]),
                 lobe=rng.choice([0, 0, 1, 1, 2, 3]), partial=rng.random() < 0.3, retain=rng.random() < 0.25,
                 wellformed=True, utts=utts, stream="random-dir")
